@@ -26,7 +26,7 @@ pub fn workbook(fmt: &str) -> Vec<u8> {
         "xlsx" => {
             let mut b = xlsx::XBook::default();
             b.sst = vec![xlsx::XText::plain("alpha"), xlsx::XText { runs: vec![xlsx::XRun::R("be".into()), xlsx::XRun::R("ta".into())], enc: xlsx::TextEnc::Entities }];
-            b.styles = Some(xlsx::XStyles { num_fmts: vec![], cell_xfs: vec![0, 14], cell_style_xfs: vec![0] });
+            b.styles = Some(xlsx::XStyles { num_fmts: vec![], cell_xfs: vec![0, 14], cell_style_xfs: vec![0], omit_general_numfmt: false });
             let mut cells = vec![];
             for r in [1u32, 2, 4, 5] { // gap at row 3
                 cells.push(xlsx::XCell::new(r, 1, xlsx::XVal::SharedStr((r % 2) as usize)));
@@ -96,6 +96,24 @@ pub fn workbook(fmt: &str) -> Vec<u8> {
     }
 }
 
+/// Two worksheets whose names differ only by letter case, each with one distinguishing cell: (name, position, value).
+const TWINS: [(&str, (u32, u32), f64); 2] = [("ab", (0, 0), 1.0), ("AB", (1, 1), 2.0)];
+pub fn twins_workbook(fmt: &str) -> Vec<u8> {
+    match fmt {
+        "xlsx" => { let mut b = xlsx::XBook::default(); for (n, p, v) in TWINS { b.sheets.push(xlsx::XSheet::new(n, vec![xlsx::XCell::new(p.0, p.1, xlsx::XVal::Num(format!("{v}")))])); } xlsx::write(&b, &xlsx::XEnc::default()) }
+        "xlsb" => { let b = xlsb::BBook { sheets: TWINS.iter().map(|(n, p, v)| xlsb::BSheet::new(n, vec![xlsb::BItem::Cell { row: p.0, col: p.1, style: 0, val: xlsb::BVal::Real(*v) }])).collect(), ..Default::default() }; xlsb::write(&b, Method::Deflated) }
+        "xls" => { let b = biff8::BBook { sheets: TWINS.iter().map(|(n, p, v)| biff8::BSheet::new(n, vec![biff8::BCell::Number { r: p.0 as u16, c: p.1 as u16, xf: 0, v: *v }])).collect(), ..Default::default() }; let mut st = biff8::workbook_stream(&b); if st.len() < 4096 { st.resize(4096, 0); } cfb::simple(&[("Workbook", st)], &cfb::Layout::default()) }
+        _ => {
+            let b = ods::OBook { sheets: TWINS.iter().map(|(n, p, v)| {
+                let mut rows = vec![]; if p.0 > 0 { rows.push(ods::ORow { cells: vec![(ods::OCell::empty(), 1)], repeat: p.0 }); }
+                let mut cells = vec![]; if p.1 > 0 { cells.push((ods::OCell::empty(), p.1)); } cells.push((ods::OCell::new(ods::OVal::Float(format!("{v}"), "float")), 1));
+                rows.push(ods::ORow { cells, repeat: 1 });
+                ods::OSheet { name: n.to_string(), rows, display: None } }).collect(), ..Default::default() };
+            ods::write(&b, Method::Deflated)
+        }
+    }
+}
+
 fn rd(r: Result<Range<Data>, String>) -> String { match r { Ok(r) => range_digest(&r), Err(e) => format!("Err({e})") } }
 fn fd(r: Result<Range<String>, String>) -> String { match r { Ok(r) => format!("{:?}..{:?}|{:?}", r.start(), r.end(), r.used_cells().map(|(i, j, v)| (i, j, v.clone())).collect::<Vec<_>>()), Err(e) => format!("Err({e})") } }
 fn es<E: std::fmt::Debug>(e: E) -> String { let s = format!("{e:?}"); s.chars().take(80).collect() }
@@ -138,6 +156,10 @@ fn open(fmt: &str, bytes: &[u8], auto: bool) -> Result<Wb, String> {
     let c = Cursor::new(bytes.to_vec());
     if auto { return open_workbook_auto_from_rs(c).map(Wb::Auto).map_err(es); }
     match fmt { "xlsx" => Xlsx::new(c).map(Wb::Xlsx).map_err(es), "xlsb" => Xlsb::new(c).map(Wb::Xlsb).map_err(es), "xls" => Xls::new(c).map(Wb::Xls).map_err(es), _ => Ods::new(c).map(Wb::Ods).map_err(es) }
+}
+
+fn do_named_range(wb: &mut Wb, n: &str) -> String {
+    match wb { Wb::Xlsx(w) => rd(w.worksheet_range(n).map_err(es)), Wb::Xlsb(w) => rd(w.worksheet_range(n).map_err(es)), Wb::Xls(w) => rd(w.worksheet_range(n).map_err(es)), Wb::Ods(w) => rd(w.worksheet_range(n).map_err(es)), Wb::Auto(w) => rd(w.worksheet_range(n).map_err(es)) }
 }
 
 /// call index space: 0..13 common, 13..16 options, 16.. extras
@@ -219,6 +241,16 @@ pub fn check(rep: &Report) {
             }
             if ws.iter().any(|(wn, _)| !names.contains(wn)) { out.push(("worksheets-extra-sheet".to_string(), format!("{:?}", ws.iter().map(|w| &w.0).collect::<Vec<_>>()))); }
             if wb.worksheet_range_at(names.len()).is_some() { out.push(("range_at-past-end".to_string(), "range_at(len) is Some".into())); }
+            // near misses of every real name are unknown names: other letter case, surrounding blanks, one character more or less
+            for n in &names {
+                let mut vs = vec![n.to_uppercase(), n.to_lowercase(), format!("{n} "), format!(" {n}"), format!("{n}x"), n.chars().skip(1).collect::<String>(), n.chars().take(n.chars().count().saturating_sub(1)).collect::<String>()];
+                vs.retain(|v| !names.contains(v));
+                vs.dedup();
+                for v in vs {
+                    if let Ok(r) = wb.worksheet_range(&v) { out.push(("near-miss-name-accepted/range".to_string(), format!("range({v:?}) gave {} although the sheets are {names:?}", range_digest(&r)))); }
+                    if wb.worksheet_formula(&v).is_ok() { out.push(("near-miss-name-accepted/formula".to_string(), format!("formula({v:?}) is Ok although the sheets are {names:?}"))); }
+                }
+            }
             out
         }
         fn agree_ref<R: ReaderRef<Cursor<Vec<u8>>>>(wb: &mut R) -> Vec<(String, String)> where R::Error: std::fmt::Debug {
@@ -245,6 +277,29 @@ pub fn check(rep: &Report) {
         match pa {
             Ok(Ok(v)) => for (k, d) in v { rep.fail(&format!("{fmt}/paths/{k}"), &d, || replay(&[0, 3, 7], "paths")); },
             other => rep.fail(&format!("{fmt}/paths/failed"), &format!("{other:?}"), || replay(&[0, 3, 7], "paths")),
+        }
+        // sheets whose names differ only by letter case are different sheets on every access path
+        {
+            let tb = twins_workbook(fmt);
+            fn twins<R: Reader<Cursor<Vec<u8>>>>(wb: &mut R) -> Vec<String> where R::Error: std::fmt::Debug {
+                let mut out = vec![];
+                let ws = wb.worksheets();
+                for (i, (n, p, v)) in TWINS.iter().enumerate() {
+                    let want = format!("{:?}..{:?} {:?}", Some(*p), Some(*p), Data::Float(*v));
+                    let show = |r: Result<Range<Data>, String>| match r { Ok(r) => format!("{:?}..{:?} {:?}", r.start(), r.end(), r.get_value(*p).cloned().unwrap_or(Data::Empty)), Err(e) => format!("Err({e})") };
+                    let a = show(wb.worksheet_range(n).map_err(es));
+                    if a != want { out.push(format!("range({n:?}) = {a}, expected {want}")); }
+                    let at = wb.worksheet_range_at(i).map(|r| show(r.map_err(es))).unwrap_or("None".into());
+                    if at != want { out.push(format!("range_at({i}) = {at}, expected {want}")); }
+                    match ws.iter().filter(|(wn, _)| wn == n).collect::<Vec<_>>().as_slice() { [(_, r)] => { let w = show(Ok(r.clone())); if w != want { out.push(format!("worksheets()[{n:?}] = {w}, expected {want}")); } } other => out.push(format!("worksheets() has {} entries named {n:?}", other.len())) }
+                }
+                out
+            }
+            let r = guarded(|| -> Result<Vec<String>, String> { Ok(match open(fmt, &tb, false)? { Wb::Xlsx(mut w) => twins(&mut w), Wb::Xlsb(mut w) => twins(&mut w), Wb::Xls(mut w) => twins(&mut w), Wb::Ods(mut w) => twins(&mut w), Wb::Auto(mut w) => twins(&mut w) }) });
+            let ra = guarded(|| -> Result<Vec<String>, String> { Ok(match open(fmt, &tb, true)? { Wb::Auto(mut w) => twins(&mut w), _ => vec![] }) });
+            rep.eval(2);
+            let tw_replay = || Replay { json: json!({"format": fmt, "twins": format!("{TWINS:?}")}), files: vec![(fmt.to_string(), tb.clone())] };
+            for (tag, x) in [("own", &r), ("auto", &ra)] { match x { Ok(Ok(v)) => for d in v { rep.fail(&format!("{fmt}/case-twin-sheets/{tag}"), d, tw_replay); }, other => rep.fail(&format!("{fmt}/case-twin-sheets/{tag}/failed"), &format!("{other:?}"), tw_replay) } }
         }
         if !b(6).starts_with("Err(") || !b(6).contains("NotFound") { rep.fail(&format!("{fmt}/unknown-sheet"), &format!("range(\"nope\") gave {}", b(6)), || replay(&[6], "unknown")); }
         if !b(10).starts_with("Err(") { rep.fail(&format!("{fmt}/unknown-sheet-formula"), &format!("formula(\"nope\") gave {}", b(10)), || replay(&[10], "unknown")); }
@@ -311,6 +366,12 @@ pub fn replay(path: &str) -> i32 {
     let Ok(s) = std::fs::read_to_string(path) else { return 2 };
     let v: serde_json::Value = serde_json::from_str(&s).unwrap();
     let fmt = v["format"].as_str().unwrap().to_string();
+    if v.get("twins").is_some() {
+        let tb = twins_workbook(&fmt);
+        let r = guarded(|| { let mut wb = open(&fmt, &tb, false).unwrap(); TWINS.iter().map(|(n, _, _)| do_named_range(&mut wb, n)).collect::<Vec<_>>() });
+        println!("workbook with sheets {TWINS:?}\nrecorded: {}\nobserved now: {r:?}", v["what"]);
+        return 0;
+    }
     let bytes = workbook(&fmt);
     let names: Vec<String> = v["sequence"].as_array().unwrap().iter().map(|x| x.as_str().unwrap().to_string()).collect();
     let ncalls = COMMON.len() + 3 + extra_calls(&fmt).len();
